@@ -35,6 +35,7 @@ type op struct {
 
 type thread struct {
 	id      int
+	parent  int
 	name    string
 	wake    chan struct{}
 	pending *op
@@ -191,7 +192,10 @@ func GoNamed(name string, f func()) {
 	if s.abort {
 		return
 	}
-	t := &thread{id: len(s.threads), wake: make(chan struct{}), name: name}
+	t := &thread{id: len(s.threads), wake: make(chan struct{}), name: name, parent: -1}
+	if s.cur != nil {
+		t.parent = s.cur.id
+	}
 	if name == "" {
 		t.name = fmt.Sprintf("t%d", t.id)
 		if s.traceOn || s.cfg.Sites {
@@ -828,6 +832,23 @@ func Note(format string, a ...any) {
 	if S != nil && !S.abort {
 		S.notes = append(S.notes, fmt.Sprintf(format, a...))
 	}
+}
+
+// Ancestors returns the names of the running thread and of its ancestors
+// (nearest first), so that a harness can tell on whose behalf a goroutine runs.
+func Ancestors() []string {
+	var r []string
+	if S == nil || S.cur == nil {
+		return r
+	}
+	for t := S.cur; t != nil; {
+		r = append(r, t.name)
+		if t.parent < 0 {
+			break
+		}
+		t = S.threads[t.parent]
+	}
+	return r
 }
 
 // CurThread returns the running vs thread's id and name (-1 outside).
